@@ -1,0 +1,146 @@
+//! Verification hooks (feature `verif_hooks`): let an external harness supply the
+//! storage backend behind a [Transport], or wrap the real local one.
+
+use std::path::{Path, PathBuf};
+use std::sync::Arc;
+
+use async_trait::async_trait;
+use bytes::Bytes;
+use url::Url;
+
+use super::{DirEntry, Metadata, Protocol, Result, Transport, WriteMode, local};
+
+/// One storage operation, with the path relative to the root the transport was opened on.
+#[derive(Debug, Clone)]
+pub enum Op {
+    Read { path: String },
+    Write { path: String, content: Bytes, mode: WriteMode },
+    ListDir { path: String },
+    CreateDir { path: String },
+    Metadata { path: String },
+    RemoveFile { path: String },
+    RemoveDirAll { path: String },
+}
+
+#[derive(Debug, Clone)]
+pub enum Reply {
+    Unit,
+    Bytes(Bytes),
+    List(Vec<DirEntry>),
+    Metadata(Metadata),
+}
+
+#[async_trait]
+pub trait Backend: std::fmt::Debug + Send + Sync + 'static {
+    async fn call(&self, op: Op) -> Result<Reply>;
+}
+
+#[derive(Debug)]
+struct HookProtocol {
+    backend: Arc<dyn Backend>,
+    sub_path: String,
+    url: Url,
+}
+
+impl HookProtocol {
+    fn full(&self, relpath: &str) -> String {
+        let relpath = relpath.trim_matches('/');
+        let relpath = if relpath == "." { "" } else { relpath };
+        match (self.sub_path.is_empty(), relpath.is_empty()) {
+            (true, _) => relpath.to_owned(),
+            (false, true) => self.sub_path.clone(),
+            (false, false) => format!("{}/{}", self.sub_path, relpath),
+        }
+    }
+}
+
+fn bad_reply<T>() -> Result<T> {
+    Err(super::Error { kind: super::ErrorKind::Other, source: None, url: None })
+}
+
+#[async_trait]
+impl Protocol for HookProtocol {
+    async fn read(&self, path: &str) -> Result<Bytes> {
+        match self.backend.call(Op::Read { path: self.full(path) }).await? {
+            Reply::Bytes(b) => Ok(b),
+            _ => bad_reply(),
+        }
+    }
+    async fn write(&self, relpath: &str, content: &[u8], mode: WriteMode) -> Result<()> {
+        self.backend
+            .call(Op::Write { path: self.full(relpath), content: Bytes::copy_from_slice(content), mode })
+            .await
+            .map(|_| ())
+    }
+    async fn list_dir(&self, relpath: &str) -> Result<Vec<DirEntry>> {
+        match self.backend.call(Op::ListDir { path: self.full(relpath) }).await? {
+            Reply::List(l) => Ok(l),
+            _ => bad_reply(),
+        }
+    }
+    async fn create_dir(&self, relpath: &str) -> Result<()> {
+        self.backend.call(Op::CreateDir { path: self.full(relpath) }).await.map(|_| ())
+    }
+    async fn metadata(&self, relpath: &str) -> Result<Metadata> {
+        match self.backend.call(Op::Metadata { path: self.full(relpath) }).await? {
+            Reply::Metadata(m) => Ok(m),
+            _ => bad_reply(),
+        }
+    }
+    async fn remove_file(&self, relpath: &str) -> Result<()> {
+        self.backend.call(Op::RemoveFile { path: self.full(relpath) }).await.map(|_| ())
+    }
+    async fn remove_dir_all(&self, relpath: &str) -> Result<()> {
+        self.backend.call(Op::RemoveDirAll { path: self.full(relpath) }).await.map(|_| ())
+    }
+    fn chdir(&self, relpath: &str) -> Arc<dyn Protocol> {
+        Arc::new(HookProtocol {
+            backend: self.backend.clone(),
+            sub_path: self.full(relpath),
+            url: self.url.clone(),
+        })
+    }
+    fn url(&self) -> &Url {
+        &self.url
+    }
+}
+
+impl Transport {
+    /// A transport whose every storage operation is served by `backend`.
+    pub fn verif_with_backend(backend: Arc<dyn Backend>) -> Transport {
+        Transport::from_protocol(Arc::new(HookProtocol {
+            backend,
+            sub_path: String::new(),
+            url: Url::parse("verif:///").unwrap(),
+        }))
+    }
+}
+
+/// The real local-filesystem protocol, exposed as a [Backend] so a harness can wrap it.
+#[derive(Debug)]
+pub struct LocalBackend {
+    inner: local::Protocol,
+    #[allow(dead_code)]
+    path: PathBuf,
+}
+
+impl LocalBackend {
+    pub fn new(path: &Path) -> LocalBackend {
+        LocalBackend { inner: local::Protocol::new(path), path: path.to_owned() }
+    }
+}
+
+#[async_trait]
+impl Backend for LocalBackend {
+    async fn call(&self, op: Op) -> Result<Reply> {
+        match op {
+            Op::Read { path } => self.inner.read(&path).await.map(Reply::Bytes),
+            Op::Write { path, content, mode } => self.inner.write(&path, &content, mode).await.map(|_| Reply::Unit),
+            Op::ListDir { path } => self.inner.list_dir(&path).await.map(Reply::List),
+            Op::CreateDir { path } => self.inner.create_dir(&path).await.map(|_| Reply::Unit),
+            Op::Metadata { path } => self.inner.metadata(&path).await.map(Reply::Metadata),
+            Op::RemoveFile { path } => self.inner.remove_file(&path).await.map(|_| Reply::Unit),
+            Op::RemoveDirAll { path } => self.inner.remove_dir_all(&path).await.map(|_| Reply::Unit),
+        }
+    }
+}
